@@ -81,6 +81,15 @@ def norm(msg):
     return msg[:90]
 
 
+def _forget_colour_decision():
+    try:
+        import termcolor.termcolor as _tc
+
+        _tc.can_colorize.cache_clear()
+    except Exception:
+        pass
+
+
 class _BareWriter:
     """The minimum a stream needs to receive print(): write and flush, nothing else."""
 
@@ -159,6 +168,36 @@ def judge(run, kind, parse, text, sources_hint=None):
     if not isinstance(rendered, str) or not rendered.strip():
         run.violation("rendered diagnostic is empty", case)
         return
+    if run.counters.get("errors_rendered", 0) % 4 == 1:
+        # an error value can be rendered again (a caller logs it and shows it); with terminal colours forced
+        # on (FORCE_COLOR) the text between the escape codes is the same
+        import os as _os
+
+        saved_env = {k: _os.environ.get(k) for k in ("FORCE_COLOR", "NO_COLOR")}
+        try:
+            again = PC.ANSI.sub("", lg.error(err))
+            _os.environ["FORCE_COLOR"] = "1"
+            _os.environ.pop("NO_COLOR", None)
+            _forget_colour_decision()  # termcolor remembers its first decision per process
+            coloured = PC.ANSI.sub("", lg.error(err))
+        except KeyboardInterrupt:
+            raise
+        except BaseException as e:
+            run.violation("rendering the same error value again raised %s: %s (error: %s)" % (type(e).__name__, str(e)[:150], repr(err)[:150]), case)
+            return
+        finally:
+            for k, v_ in saved_env.items():
+                if v_ is None:
+                    _os.environ.pop(k, None)
+                else:
+                    _os.environ[k] = v_
+            _forget_colour_decision()
+        if again != rendered or coloured != rendered:
+            case["first"] = rendered[:600]
+            case["again"] = (again if again != rendered else coloured)[:600]
+            run.violation("rendering the same error value %s gives a different diagnostic" % ("a second time" if again != rendered else "with colours forced on"), case)
+            return
+        run.count("errors_rendered_repeatedly")
     run.count("errors_rendered")
     cites = list(re.finditer(r"\[([^\[\]:\s]+\.fcp):(-?\d+)\]", rendered))
     for ci, m in enumerate(cites):
